@@ -101,7 +101,7 @@ def gen(c):
 
     def offer(what, r, s, sigbytes, pubkey=P, ctx_id=ident, ctx_msg=msg, dg=e_bytes, ifaces=("dgst", "ctx", "do")):
         for iface in ifaces:
-            if iface == "do" and (sigbytes is not None and what.split(":")[0] not in ("rs", "flip_do", "valid")):
+            if iface == "do" and (sigbytes is not None and what.split(":")[0] not in ("rs", "flip_do", "valid", "degenerate")):
                 continue
             tt, zz, ee = (t_ctx, z, e_bytes) if (pubkey == P and ctx_id == ident and ctx_msg == msg) else tab_for_digest(ctx_id, pubkey, ctx_msg)
             e_used = ee if iface == "ctx" else dg
@@ -127,6 +127,30 @@ def gen(c):
                 for fname, fb in forms(rr, ss).items():
                     offer("form%s:%s" % ("hi" if want_hi else "lo", fname), rr, ss, fb)
                 break
+    # valid signatures for which the verifier's two partial results coincide, [s]G = [t]P (the sum is a doubling), or cancel, [s]G = -[t]P (the sum is infinity, not a
+    # valid signature at all): constructed by choosing the key for a nonce, which the digest-taking interfaces allow (e does not depend on P there)
+    for tag in ("sG_equals_tP", "sG_equals_minus_tP"):
+        for _ in range(3 if not c.quick else 1):
+            kk, ee2 = rng.randrange(1, n), rng.randrange(1, n)
+            rr = (ee2 + mul(kk, G)[0]) % n
+            if tag == "sG_equals_tP":
+                den = (2 * rr + kk) % n
+                if rr == 0 or den == 0 or (rr + kk) % n == 0:
+                    continue
+                dd = kk * pow(den, -1, n) % n                                   # k = 2s  <=>  d = k / (2r + k)
+                if dd in (0, n - 1):
+                    continue
+                ss = (kk - rr * dd) * pow(1 + dd, -1, n) % n
+                if ss == 0 or (ss - (rr + ss) * dd) % n != 0:
+                    continue
+            else:
+                # [s]G + [t]P = O  <=>  s + t d = 0: not reachable by honest signing (it would need k = 0); offer (r, s) with s = -(r + s) d, i.e. s = -r d / (1 + d)
+                dd = rng.randrange(1, n - 1)
+                ss = (-rr * dd) * pow(1 + dd, -1, n) % n
+                if ss == 0 or (rr + ss) % n == 0:
+                    continue
+            PP = mul(dd, G)
+            offer("degenerate:%s" % tag, rr, ss, seq(dint(rr), dint(ss)), pubkey=PP, dg=i2b(ee2), ifaces=("dgst", "do"))
     for rn, rv in scalar_classes.items():
         for sn, sv in scalar_classes.items():
             r, s = (r0 if rv is None else rv), (s0 if sv is None else sv)
